@@ -20,6 +20,11 @@ def main(tier, replay=None):
         S.model_check(sc.chk, sc.work, "N4W3S4_vary", {"N": 4, "Workers": 3, "Steps": 4, "MaxPn": 14, "VaryInit": True}, INV, PROPS, timeout=3000)
         S.model_check(sc.chk, sc.work, "N5W4S3", {"N": 5, "Workers": 4, "Steps": 3, "MaxPn": 14}, INV, PROPS, timeout=3000, required=("InitPick", "Complete", "Finish"))
         S.model_check(sc.chk, sc.work, "N4W2S3_w12", {"N": 4, "Workers": 2, "Steps": 3, "MaxPn": 12, "WSet": "W12"}, INV, PROPS, timeout=3000)
+    S.sort_states(sc, "N4W2S3", {"N": 4, "Workers": 2, "Steps": 3, "MaxPn": 12})
+    S.sort_states(sc, "N4W3S3", {"N": 4, "Workers": 3, "Steps": 3, "MaxPn": 12})
+    if not q:
+        S.sort_states(sc, "N4W3S4", {"N": 4, "Workers": 3, "Steps": 4, "MaxPn": 14}, timeout=3000)
+        S.sort_states(sc, "N5W3S3", {"N": 5, "Workers": 3, "Steps": 3, "MaxPn": 14}, timeout=3000)
     sc.replay_behaviours("N3W2S4_kill", {"N": 3, "Workers": 2, "Steps": 4, "MaxPn": 14, "MaxRestarts": 2, "MoreSteps": 2}, 120 if q else 1500, 22)
     sc.replay_behaviours("N4W3S5", {"N": 4, "Workers": 3, "Steps": 5, "MaxPn": 16}, 120 if q else 1500, 20)
     if not q:
